@@ -259,10 +259,27 @@ Proof.
   all: destruct strong; timeout 10 naive_solver.
 Qed.
 
+(* ---------- I10: suspension: a Begin is immediately followed by the Process of the same (slow) item ---------- *)
+Arguments susp_ok : simpl never.
+Lemma susp_snoc l e : susp_ok (l ++ [e]) = susp_step (susp_ok l) e.
+Proof. unfold susp_ok. by rewrite foldl_app. Qed.
+Lemma item_eqb_refl x : item_eqb x x = true.
+Proof. destruct x as [n b]. unfold item_eqb; cbn. rewrite Nat.eqb_refl. by destruct b. Qed.
+Definition inv_susp (s : state) : Prop := susp_ok s.(log) = Some (susp_item s).
+
+Lemma step_susp s a s' : inv_susp s -> step s a = Some s' -> inv_susp s'.
+Proof.
+  unfold inv_susp, susp_item. intros HI H. step_cases s H.
+  all: rewrite ?susp_snoc, ?HI; cbn; rewrite ?item_eqb_refl.
+  all: try done.
+  all: try (destruct o; done).
+  all: try (match goal with E : is_slow _ = true |- _ => rewrite E end; done).
+Qed.
+
 (* ---------- all invariants hold in every reachable state ---------- *)
 Record Inv (items : list item) (s : state) : Prop := {
   i_items : inv_items items s; i_excl : inv_excl s; i_strong : inv_strong s; i_free : inv_free s;
-  i_rel : inv_rel s; i_ids : inv_ids s; i_A : inv_A s; i_B : inv_B s; i_G : inv_G s }.
+  i_rel : inv_rel s; i_ids : inv_ids s; i_A : inv_A s; i_B : inv_B s; i_G : inv_G s; i_susp : inv_susp s }.
 
 Lemma Inv_init items : Inv items (init items).
 Proof.
@@ -276,6 +293,7 @@ Proof.
   - intros _. done.
   - unfold inv_B; cbn. split; [done|]. split; [done|done].
   - intros H. discriminate H.
+  - done.
 Qed.
 
 Lemma Inv_step items s a s' : Inv items s -> step s a = Some s' -> Inv items s'.
@@ -290,6 +308,7 @@ Proof.
   - by eapply step_A.
   - by eapply step_B.
   - by eapply step_G.
+  - by eapply step_susp.
 Qed.
 
 Lemma Inv_reach items tr s : run (init items) tr = Some s -> Inv items s.
